@@ -47,14 +47,16 @@ namespace sqf::parser::sqf::bison
 
         void append(astnode node)
         {
-            children.push_back(node);
+            children.push_back(std::move(node));
         }
-        void append_children(const astnode& other)
+        // takes the children over: the list node they come from is dropped by the caller
+        void append_children(astnode& other)
         { 
-            for (auto node : other.children)
+            for (auto& node : other.children)
             {
-                append(node); 
+                append(std::move(node)); 
             } 
+            other.children.clear();
         }
     };
 }
